@@ -8,6 +8,8 @@ package checks
 // pairs i<j of executions of one hook, j-i+1 <= B + ceil((s_j - s_i)/I).
 // Every hook process must be preceded by its own wait record (no bypass).
 // Hooks without settings: all queued executions start within 2 virtual seconds.
+// Pattern failing-retries: a strict hook that fails four times; its retries come
+// after the queue's back-off (5 s and growing), the interval is 20 s / 60 s.
 
 import (
 	"fmt"
@@ -17,6 +19,7 @@ import (
 	"testing/synctest"
 	"time"
 
+	"verif/harness/vhk"
 	"verif/harness/vlib"
 )
 
@@ -53,6 +56,13 @@ func TestC18(t *testing.T) {
 			}
 		}
 	}
+	// a failing strict hook: the queue retries it after a back-off that is shorter than the interval; the
+	// retries are executions like any other and must take their token
+	for _, iv := range []string{"20s", "60s"} {
+		for _, b := range []int{1, 2} {
+			cat = append(cat, c18case{Interval: iv, Burst: b, Pattern: "failing-retries"})
+		}
+	}
 	cat = append(cat, c18case{NoLimit: true, Pattern: "burst"}, c18case{NoLimit: true, Pattern: "burst", TwoQ: true})
 	n := e.Pick(len(cat), len(cat)*60)
 	vlib.RunCases(t, "C18", "rate", n, func(c *vlib.Case) vlib.Result {
@@ -83,6 +93,11 @@ func c18run(c *vlib.Case, cs c18case, res *vlib.Result) {
 		cfg["settings"] = m{"executionMinInterval": cs.Interval, "executionBurst": float64(cs.Burst)}
 	}
 	hs.AddHook("h", 0o755, cfgJSON(cfg))
+	if cs.Pattern == "failing-retries" {
+		for i := 0; i < 4; i++ {
+			hs.Plan("h", i, vhk.Directive{Exit: 1})
+		}
+	}
 	// an unthrottled hook sharing the queues, so that tasks of h are never adjacent (no combining)
 	hs.AddHook("o", 0o755, cfgJSON(m{"configVersion": "v1", "schedule": []any{m{"name": "o1", "crontab": c18cronO, "queue": "q1"}, m{"name": "o2", "crontab": c18cronO2, "queue": "q2"}}}))
 
@@ -138,6 +153,11 @@ func c18run(c *vlib.Case, cs c18case, res *vlib.Result) {
 			for k := 0; k < 24; k++ {
 				fire(k)
 				time.Sleep(gap)
+			}
+		case "failing-retries":
+			fire(0)
+			for k := 0; k < 12; k++ {
+				sys.Advance(I)
 			}
 		case "bursts-with-idle":
 			for r := 0; r < 3; r++ {
